@@ -9,6 +9,7 @@ the breaking mutants the static check does not flag (leads for new necessary con
 
   tools/mutant_leads.py linalg        (pysph/sph/wc/linalg.py, check C13)
   tools/mutant_leads.py riemann       (pysph/sph/gas_dynamics/riemann_solver.py, check C15; the oracle tests the clauses of the property itself on sample states)
+  tools/mutant_leads.py solver        (the stepping logic of pysph/solver/solver.py, check C10; the oracle compares run histories with the unmutated Solver on stub collaborators)
   tools/mutant_leads.py kernels       (pysph/base/kernels.py, check C08; the oracle compares with the unmutated module)
 """
 import ast, copy, importlib.util, os, random, shutil, subprocess, sys, tempfile
@@ -306,7 +307,96 @@ def oracle_riemann_property(path):
         signal.alarm(0)
 
 
+def _solver_trace(mod, cfg):
+    """the observable history of one run of Solver.solve with stub collaborators: every integrator step (count, t, dt), every callback, every output (t, count, recorded dt)"""
+    trace = []
+
+    class Integ(object):
+        def __init__(self):
+            self.k = 0
+
+        def initial_acceleration(self, t, dt):
+            trace.append(('init', round(t, 12), round(dt, 12)))
+
+        def step(self, t, dt):
+            trace.append(('step', round(t, 12), round(dt, 12)))
+
+        def compute_time_step(self, dt, cfl):
+            self.k += 1
+            seq = cfg['adapt']
+            v = seq[self.k % len(seq)]
+            return None if v is None else v * cfl
+
+        def set_nnps(self, nnps):
+            pass
+
+        def set_post_stage_callback(self, cb):
+            pass
+    sv = mod.Solver(dim=1, integrator=Integ(), dt=cfg['dt'], tf=cfg['tf'], adaptive_timestep=cfg['adaptive'], pfreq=cfg['pfreq'], cfl=cfg['cfl'],
+                    output_at_times=list(cfg['times']), n_damp=cfg['n_damp'], max_steps=cfg['max_steps'])
+    sv.particles = []
+
+    def dump():
+        d = sv._get_solver_data()
+        trace.append(('dump', round(sv.t, 12), sv.count, round(d['dt'], 12)))
+    sv.dump_output = dump
+    sv.barrier = lambda: None
+    sv.update_particle_time = lambda: None
+    sv.pre_step_callbacks.append(lambda s_: trace.append(('pre', round(s_.t, 12))))
+    sv.post_step_callbacks.append(lambda s_: trace.append(('post', round(s_.t, 12))))
+    sv.solve(show_progress=False)
+    trace.append(('end', round(sv.t, 12), sv.count, round(sv.dt, 12)))
+    return trace
+
+
+def oracle_solver(path):
+    """True when the (mutated) Solver produces, on a set of run configurations (fixed and adaptive steps, damping, output every n-th step and at requested times - clustered,
+    on step times, closer than a step -, runs cut by max_steps), the same history of steps, callbacks and outputs as the unmutated one"""
+    import signal, io, contextlib
+
+    def alarm(*a):
+        raise TimeoutError()
+    signal.signal(signal.SIGALRM, alarm)
+    signal.alarm(40)
+    try:
+        ref = load(os.path.join(CLEAN, 'pysph/solver/solver.py'), 'refsolver')
+        m = load(path, 'mutsolver')
+        rnd = random.Random(3)
+        cfgs = []
+        for k in range(40):
+            dt = rnd.choice([0.1, 0.05, 0.03])
+            tf = rnd.choice([0.5, 1.0, 0.73])
+            times = sorted(set(round(rnd.uniform(0, tf), rnd.choice([1, 2, 3])) for _ in range(rnd.choice([0, 0, 2, 4]))))
+            if k % 5 == 0 and times:
+                times = sorted(times + [times[0] + 0.004])
+            cfgs.append(dict(dt=dt, tf=tf, adaptive=bool(k % 2), pfreq=rnd.choice([1, 3, 100]), cfl=rnd.choice([0.3, 1.0]), times=times, n_damp=rnd.choice([0, 0, 3, 5]),
+                             max_steps=rnd.choice([1 << 31, 1 << 31, 4]), adapt=[rnd.choice([None, 0.08, 0.02, 0.2]) for _ in range(5)]))
+        with contextlib.redirect_stdout(io.StringIO()), contextlib.redirect_stderr(io.StringIO()):
+            for cfg in cfgs:
+                try:
+                    want = _solver_trace(ref, cfg)
+                except Exception:
+                    continue
+                try:
+                    got = _solver_trace(m, cfg)
+                except Exception:
+                    return False
+                if got != want:
+                    return False
+        return True
+    except TimeoutError:
+        return False
+    except Exception:
+        return False
+    finally:
+        signal.alarm(0)
+
+
+SOLVER_FUNCS = ('Solver.solve', 'Solver._get_timestep', 'Solver._dump_output_if_needed', 'Solver._compute_timestep', 'Solver._damp_timestep', 'Solver._get_solver_data',
+                'Solver._get_undamped_timestep')
+
 TARGETS = {
+    'solver': ('pysph/solver/solver.py', SOLVER_FUNCS, 'C10', oracle_solver),
     'riemann': ('pysph/sph/gas_dynamics/riemann_solver.py', None, 'C15', oracle_riemann_property),
     'riemann-equiv': ('pysph/sph/gas_dynamics/riemann_solver.py', None, 'C15', oracle_riemann),
     'kernels': ('pysph/base/kernels.py', None, 'C08', oracle_kernels),
